@@ -23,7 +23,7 @@ from sim.watchdog import WatchdogTimeout
 
 NAME = 'M-DB'
 PROPS = ('C08',)
-TIERS = {'C08': {'quick': {'runs': 3000, 'wall_cap': 240},
+TIERS = {'C08': {'quick': {'runs': 8000, 'wall_cap': 240},
                  'thorough': {'runs': 100000, 'wall_cap': 1500}}}
 LEVELS = {'C08': 'exploration'}
 STATES_MEASURE = ('distinct (column type set, discovered constraint-kind '
